@@ -54,9 +54,9 @@ def build(verbose=False):
         gen = os.path.join(d, 'gen')
         if not os.path.exists(os.path.join(d, 'ok')):
             # drop stale caches (disk is limited)
-            for old in glob.glob(os.path.join(CACHE, 'lib-*')):
-                if old != d:
-                    shutil.rmtree(old, ignore_errors=True)
+            olds = sorted([o for o in glob.glob(os.path.join(CACHE, 'lib-*')) if o != d], key=os.path.getmtime)
+            for old in olds[:-5]:
+                shutil.rmtree(old, ignore_errors=True)
             shutil.rmtree(d, ignore_errors=True)
             os.makedirs(d)
             gen_headers(gen)
